@@ -24,10 +24,14 @@ def predict_case(cid, rng, big, edited=False):
     p = rng.randrange(2, 13) if big else rng.randrange(1, 3)
     T = rng.randrange(1, 3)
     dom = rng.random() < 0.4
-    ph = np.array([[[rng.randrange(2) for _ in range(p)] for _ in range(n)] for _ in range(2)], dtype="int8")
+    # ploidy = number of phase planes of the phased matrix; heterozygosity indicators (dominance) are defined for diploids
+    P = 2 if (dom or rng.random() < 0.7) else rng.choice([1, 3, 4, 4, 6])
+    ph = np.array([[[rng.randrange(2) for _ in range(p)] for _ in range(n)] for _ in range(P)], dtype="int8")
     if rng.random() < 0.3:
         ph[:, :, 0] = rng.randrange(2)          # a monomorphic marker
-    Z = (ph[0] + ph[1]).astype(int)
+    if P > 2 and rng.random() < 0.5:
+        ph[:2, :, :] = 0                        # the allele is carried on the later chromosome copies only
+    Z = ph.sum(0).astype(int)
     u = np.array([[rng.choice([-2, -1, 0, 0, 1, 2]) for _ in range(T)] for _ in range(p)], dtype=float)
     d = np.array([[rng.choice([-1, 0, 1, 2]) for _ in range(T)] for _ in range(p)], dtype=float) if dom else np.zeros((p, T))
     q = rng.choice([1, 1, 2])
@@ -37,11 +41,11 @@ def predict_case(cid, rng, big, edited=False):
     grp = np.array([rng.randrange(3) for _ in range(n)], dtype="int64")
     trait = np.array(["tr%d" % t for t in range(T)], dtype=object)
     c = {"id": cid, "kind": "predict", "Z": Z.tolist(), "u": u.astype(int).tolist(), "d": d.astype(int).tolist(),
-         "b": [int(x) for x in bstar], "dom": dom, "q": q, "err": None}
+         "b": [int(x) for x in bstar], "dom": dom, "q": q, "err": None, "ploidy": P}
     try:
         with time_limit(60), np.errstate(all="ignore"):
             pg = DensePhasedGenotypeMatrix(ph, taxa=taxa, taxa_grp=grp)
-            ug = DenseGenotypeMatrix(Z.astype("int8"), taxa=taxa, taxa_grp=grp, ploidy=2)
+            ug = DenseGenotypeMatrix(Z.astype("int8"), taxa=taxa, taxa_grp=grp, ploidy=P)
             if edited:
                 # the model is first built with other effects and USED (anything it memoises is now filled), then its
                 # effect arrays are overwritten in place with the values the case is about
@@ -117,7 +121,7 @@ def predict_case(cid, rng, big, edited=False):
                     c["bul"].append([f.numerator, f.denominator])
             for key, fn in (("fa", model.facount), ("da", model.dacount)):
                 c[key] = np.asarray(fn(ug)).astype(int).tolist()
-            c["fafreq2n"] = ints(model.fafreq(pg), ok, 2.0 * n); c["dafreq2n"] = ints(model.dafreq(pg), ok, 2.0 * n)
+            c["fafreq2n"] = ints(model.fafreq(pg), ok, float(P * n)); c["dafreq2n"] = ints(model.dafreq(pg), ok, float(P * n))
             for key in ("faavail", "fafixed", "fapoly", "daavail", "dafixed", "dapoly", "nafixed", "napoly"):
                 c[key] = np.asarray(getattr(model, key)(pg if key[0] != "n" else ug)).astype(bool).tolist()
             c["lat"] = ok[0]
